@@ -316,3 +316,28 @@ def step_of(stmt):
         if isinstance(stmt.value.op, ast.Add) and ast.dump(r) == tt and const(l):
             return t, l.value
     return None
+
+
+def all_paths_raise(stmts):
+    """Every path through this statement list ends in `raise` (syntactic: the last statement raises, or is an if/try all of whose
+    arms do; no continue / break / return anywhere on the way)."""
+    if not stmts:
+        return False
+    for st in stmts[:-1]:
+        for x in ast.walk(st):
+            if isinstance(x, (ast.Continue, ast.Break, ast.Return)):
+                return False
+            if isinstance(x, (ast.FunctionDef, ast.AsyncFunctionDef, ast.Lambda)):
+                break
+    last = stmts[-1]
+    if isinstance(last, ast.Raise):
+        return True
+    if isinstance(last, ast.If):
+        return bool(last.orelse) and all_paths_raise(last.body) and all_paths_raise(last.orelse)
+    if isinstance(last, ast.With):
+        return all_paths_raise(last.body)
+    if isinstance(last, ast.Try):
+        if last.finalbody and all_paths_raise(last.finalbody):
+            return True
+        return all_paths_raise(last.body + last.orelse) and all(all_paths_raise(h.body) for h in last.handlers)
+    return False
